@@ -47,6 +47,10 @@ impl ChainService {
                         // asynchronous_process_block doesn't interact with tx-pool,
                         // no need to pause tx-pool's chunk_process here.
                         let _trace_now = minstant::Instant::now();
+                        #[cfg(feature = "verif-hooks")]
+                        if crate::VERIF_CLEAN_ORPHANS_ON_REQUEST.load(std::sync::atomic::Ordering::SeqCst) {
+                            self.orphan_broker.clean_expired_orphans();
+                        }
                         self.asynchronous_process_block(lonely_block);
                         if let Some(handle) = ckb_metrics::handle(){
                             handle.ckb_chain_async_process_block_duration.observe(_trace_now.elapsed().as_secs_f64())
